@@ -115,7 +115,21 @@ pub fn run_options(line: &str) -> String {
     let mc: Option<u32> = if t[0] == "none" { None } else { Some(t[0].parse().unwrap()) };
     let e: u32 = t[1].parse().unwrap();
     let res = catch_unwind(AssertUnwindSafe(|| match ExecutionOptions::new(mc, e, false) {
-        Ok(o) => format!("OK {} {}", o.max_cycles(), o.expected_cycles()),
+        Ok(o) => {
+            // the same limits must come out whichever way tracing is switched on
+            let a = o.clone().with_tracing();
+            let b = ExecutionOptions::new(mc, e, true);
+            let mut extra = String::new();
+            if (a.max_cycles(), a.expected_cycles(), a.enable_tracing()) != (o.max_cycles(), o.expected_cycles(), true) {
+                extra.push_str(&format!(" with_tracing=({},{},{})", a.max_cycles(), a.expected_cycles(), a.enable_tracing()));
+            }
+            match b {
+                Ok(b) if (b.max_cycles(), b.expected_cycles(), b.enable_tracing()) == (o.max_cycles(), o.expected_cycles(), true) => {}
+                Ok(b) => extra.push_str(&format!(" ctor_tracing=({},{},{})", b.max_cycles(), b.expected_cycles(), b.enable_tracing())),
+                Err(_) => extra.push_str(" ctor_tracing=ERR"),
+            }
+            format!("OK {} {}{}", o.max_cycles(), o.expected_cycles(), extra)
+        }
         Err(_) => "ERR".to_string(),
     }));
     match res {
